@@ -79,7 +79,29 @@ class Check:
             if not res.logs_nonempty() and "or execute an executable" in (res.stderr_full or ""):
                 raise runner.HarnessError("driver binary could not be launched (case %s): is another build replacing it?" % res.case.name)
             v.append(Violation("abort|" + "+".join(sorted(set(s for s in sigs if s != "done"))) + "|" + self.abort_site(res), "abnormal termination rc=%s open=%s stderr=%s" % (res.rc, sigs, res.stderr[-1500:]), res))
-        # guard zones and write buffers (C13 side monitor)
+        # C17 side monitor: a program that declares all of its files closed must leave nothing behind
+        for rank, evs in enumerate(res.logs):
+            for e in evs:
+                if e.kind == "R" and e.op == "balance" and e.kv.get("final") == "1":
+                    self.count("final_balances")
+                    if e.geti("malloc") not in (0, None) and e.kv.get("mallocerr") == "0":
+                        v.append(Violation("leak|heap", "ncmpi_inq_malloc_size() = %s after the last close (rank %d)" % (e.kv.get("malloc"), rank), res))
+                    for k in ("types", "comms", "infos", "files"):
+                        if e.geti(k) not in (0, None):
+                            v.append(Violation("leak|mpi-" + k, "%s library-created MPI %s still alive after the last close on rank %d (created %s)" % (
+                                e.kv.get(k), k, rank, e.kv.get("tot")), res))
+        # structural invariants of the library's in-memory state, walked by the hook after every script op
+        for rank, evs in enumerate(res.logs):
+            for e in evs:
+                if e.kind == "W":
+                    m = e.kv.get("msg", "")
+                    key = m.split(":")[0]
+                    self.count("invariant_reports")
+                    v.append(Violation("invariant|" + key, "internal invariant broken after %s at line %d rank %d (file slot %s): %s" % (
+                        e.kv.get("after"), e.line, rank, e.kv.get("f"), m.replace("_", " ")), res))
+                    break
+                elif e.kind == "E":
+                    self.count("invariant_walks", int(e.kv.get("walks", 0) or 0))
         for rank, evs in enumerate(res.logs):
             for e in evs:
                 if e.kind == "R":
